@@ -41,7 +41,9 @@ Expected(ids) == IF ids = <<>> THEN <<>> ELSE Frame(Head(ids)) \o Expected(Tail(
 IsPrefix(s, t) == Len(s) <= Len(t) /\ SubSeq(t, 1, Len(s)) = s
 
 \* Conn.Write: the argument of the first and (if any) second Writer.Write
-First(i)  == IF Pickle THEN Frame(i)
+\* (deviation pfx_stale_long: the length prefix of the longest lines is left at 0 -- it was patched
+\*  into a buffer that the encoder had already outgrown)
+First(i)  == IF Pickle THEN (IF Dev = "pfx_stale_long" /\ lens[i] = MaxLineLen THEN <<0>> \o Body(i) ELSE Frame(i))
              ELSE IF Dev = "nl_first" THEN <<Nl(i)>> ELSE Body(i)
 HasSecond == /\ ~Pickle /\ Dev # "no_nl"
              /\ (Dev = "nl_sometimes" => n > 0)       \* deviation: newline forgotten after an overflow flush
